@@ -156,26 +156,30 @@ def prop_theorems(prop):
 
 
 def broken_theorems(prop, out):
-    """names of the theorems of Props/<prop>.lean that enclose the error positions of a lake output"""
-    path = os.path.join(LEAN, "SockModel", "Props", prop + ".lean")
-    try:
-        lines = strip_comments(open(path).read()).split("\n")
-    except OSError:
-        return []
-    starts = []
-    for i, line in enumerate(lines, 1):
-        m = re.match(r"\s*(?:@\[[^\]]*\]\s*)?(?:private\s+|protected\s+)?(theorem|def|example|instance|abbrev|lemma)\b\s*(\S*)", line)
-        if m:
-            starts.append((i, m.group(1), m.group(2)))
+    """names of the theorems that enclose the error positions of a lake output: those of Props/<prop>.lean, and
+    (qualified `Cyy:name`) those of another Props file it imports (C01 imports the tie of `Wait` from C16)"""
     names = []
-    for m in re.finditer(r"Props/%s\.lean:(\d+):\d+" % re.escape(prop), out):
-        ln = int(m.group(1))
-        cur = None
-        for i, kind, name in starts:
-            if i <= ln:
-                cur = (kind, name)
-        if cur and cur[0] == "theorem" and cur[1] not in names:
-            names.append(cur[1])
+    for f in sorted({m.group(1) for m in re.finditer(r"error: \S*Props/(C\d+)\.lean:\d+:\d+", out)}, key=lambda x: (x != prop, x)):
+        path = os.path.join(LEAN, "SockModel", "Props", f + ".lean")
+        try:
+            lines = strip_comments(open(path).read()).split("\n")
+        except OSError:
+            continue
+        starts = []
+        for i, line in enumerate(lines, 1):
+            m = re.match(r"\s*(?:@\[[^\]]*\]\s*)?(?:private\s+|protected\s+)?(theorem|def|example|instance|abbrev|lemma|macro)\b\s*(\S*)", line)
+            if m:
+                starts.append((i, m.group(1), m.group(2)))
+        for m in re.finditer(r"error: \S*Props/%s\.lean:(\d+):\d+" % re.escape(f), out):
+            ln = int(m.group(1))
+            cur = None
+            for i, kind, name in starts:
+                if i <= ln:
+                    cur = (kind, name)
+            if cur and cur[0] == "theorem":
+                nm = cur[1] if f == prop else "%s:%s" % (f, cur[1])
+                if nm not in names:
+                    names.append(nm)
     return names
 
 
